@@ -243,6 +243,70 @@ def specOK (T : Table) : Bool :=
     | some s => beqPy (erase (shapeOf t)) s
     | none => true
 
+/-! ### Reflected operator overloads (`k op e` with the number on the left)
+
+Python evaluates `2.0 ** e` as `e.__rpow__(2.0)`: the reflected method receives the operands in swapped order and must
+build the operator with `other` as LEFT operand.  The probe calls every `__rX__` defined on `Element` and on `Operator`
+with placeholder operands (`hole 0` = self, `hole 1` = other) and records the emitted text as a table row
+`Element.__rX__` / `Operator.__rX__`; the intended shape is `other X self`. -/
+
+def reflOp : String → Option BinOp
+  | "Element.__radd__" | "Operator.__radd__" => some .add
+  | "Element.__rsub__" | "Operator.__rsub__" => some .sub
+  | "Element.__rmul__" | "Operator.__rmul__" => some .mul
+  | "Element.__rtruediv__" | "Operator.__rtruediv__" => some .div
+  | "Element.__rmod__" | "Operator.__rmod__" => some .mod
+  | "Element.__rpow__" | "Operator.__rpow__" => some .pow
+  | _ => none
+
+/-- operators whose two operand orders are the same operation on numbers (IEEE `+` and `*` are commutative bit for
+bit): the code builds `2.0 * a` as `a * 2.0` (`NumericalMultiplicationOperator` prints the element first) -/
+def commutes : BinOp → Bool
+  | .add | .mul => true
+  | _ => false
+
+def reflRowOK (t : Tmpl) : Bool :=
+  match reflOp t.cls with
+  | some k => beqPy (erase (shapeOf t)) (.bin k h1 h0) || (commutes k && beqPy (erase (shapeOf t)) (.bin k h0 h1))
+  | none => true
+
+/-- per-run obligation on the probed table of reflected overloads (a method the specification does not know is
+reported by the harness, not decided here) -/
+def reflOK (T : Table) : Bool := T.all reflRowOK
+
+/-- **a reflected build denotes `k op e`**: for every probed reflected overload, in any arithmetic, the value of
+the built term is the operator applied to (other, self) — the number is the LEFT operand; only for the commutative
+`+` and `*` the operands may also appear in the other order -/
+theorem refl_build_denotes (T : Table) (h : reflOK T = true) (t : Tmpl) (ht : t ∈ T) (k : BinOp)
+    (hk : reflOp t.cls = some k) (α : Type) (C : Carrier α) (ρ : Nat → α) :
+    eval C ρ (shapeOf t) = C.bin k (ρ 1) (ρ 0) ∨
+    (commutes k = true ∧ eval C ρ (shapeOf t) = C.bin k (ρ 0) (ρ 1)) := by
+  unfold reflOK at h
+  rw [List.all_eq_true] at h
+  have := h t ht
+  simp only [reflRowOK, hk, Bool.or_eq_true, Bool.and_eq_true] at this
+  rcases this with h1' | ⟨hc, h2'⟩
+  · left
+    rw [← eval_erase C ρ (shapeOf t), beqPy_eq _ _ h1']
+    simp [eval, h0, h1]
+  · right
+    refine ⟨hc, ?_⟩
+    rw [← eval_erase C ρ (shapeOf t), beqPy_eq _ _ h2']
+    simp [eval, h0, h1]
+
+/-- witness for the swapped overload (`Operator.__rpow__` written as a copy of `__pow__`: `PowerOperator(self, other)`):
+`2.0 ** (a+b)` would be built as `(a+b) ** 2.0` — the obligation is false on that row -/
+def swappedRpow : Tmpl :=
+  { cls := "Operator.__rpow__", arity := 2,
+    toks := [.lp, .lp, .hole 0, .rp, .op .pow, .lp, .hole 1, .rp, .rp] }
+theorem C02_witness_rpow_swapped : reflOK [swappedRpow] = false := by decide +kernel
+
+/-- … and the correct overload satisfies it (non-vacuity) -/
+def goodRpow : Tmpl :=
+  { cls := "Operator.__rpow__", arity := 2,
+    toks := [.lp, .lp, .hole 1, .rp, .op .pow, .lp, .hole 0, .rp, .rp] }
+example : reflOK [goodRpow] = true := by decide +kernel
+
 /-- every class of the C02 vocabulary is present in the table -/
 def vocabulary : List String :=
   ["AdditionOperator", "SubtractionOperator", "MultiplicationOperator", "DivisionOperator", "ModOperator",
@@ -337,6 +401,8 @@ example : tableOK L demoTable = true ∧ specOK demoTable = true ∧
 #print axioms C02_full_of_tableOK
 #print axioms C02_parse_unique
 #print axioms C02_parse_complete
+#print axioms refl_build_denotes
+#print axioms C02_witness_rpow_swapped
 #print axioms C02_parse_decides
 #print axioms C02_witness_bare_sub
 #print axioms render_parses
